@@ -166,6 +166,11 @@ inductive Op where
   | joinFusedLhs (a : Accum) (p0 p1 : Pers)
   | joinFusedRhs (a : Accum) (p0 p1 : Pers)
   | joinMultisetHalf (pbuild pprobe : Pers)  -- inputs: 0 = build, 1 = probe
+  /- Fused pull chains whose consumer stops pulling early (finding F22): the lazily evaluated
+     stateful operator only sees the items that were actually pulled through it. -/
+  | fusedEnumChainFirstN (n : Nat)         -- `enumerate::<'static>() -> [0]chain_first_n(n)`, other input on [1]
+  | fusedUniqueCrossSingleton              -- `unique::<'static>() -> [input]cross_singleton::<'tick>()`
+  | fusedUniqueDeferSignal                 -- `unique::<'static>() -> [signal]defer_signal()`
 deriving DecidableEq, Repr
 
 /-- what an operator's prologue variables hold between ticks -/
@@ -275,6 +280,11 @@ def fusedProbe (tbl : List Val) (probes : List Val) : List Val :=
   probes.filterMap fun p => (tblGet tbl (keyOf p)).map fun a => .pair (keyOf p) (.pair a p.snd)
 
 def keep (p : Pers) (xs : List Val) : List Val := match p with | .static => xs | .tick => []
+
+/-- pull signal items through a lazy `unique` until the first one passes: (seen', fired) -/
+def signalGo : List Val → List Val → List Val × Bool
+  | seen, [] => (seen, false)
+  | seen, x :: xs => if seen.contains x then signalGo seen xs else (seen ++ [x], true)
 
 /--
 The operator's work in one tick *including* its `write_tick_end` reset:
@@ -401,6 +411,22 @@ def opSem (op : Op) (t : Nat) (ext : List Stream) (st : OpState) (ins : List Str
     let probes := match p1 with | .static => st.r ++ i0 | .tick => i0
     ({ st with l := keep p0 l, r := keep p1 probes },
       [(fusedProbe l probes).map fun e => .pair (keyOf e) (.pair e.snd.snd e.snd.fst)])
+  | .fusedEnumChainFirstN n =>
+    -- `take(n)` pulls `min n |i0|` items through `enumerate`; only those advance the counter
+    let k := min n i0.length
+    let a := i0.take k
+    let out := (List.range a.length).zipWith (fun i x => Val.pair (.num (st.cnt + i)) x) a
+    ({ st with cnt := st.cnt + k }, [out ++ i1.take (n - k)])
+  | .fusedUniqueCrossSingleton =>
+    -- without a singleton the input side is never pulled: `unique` does not see the tick's items
+    match i1.head? with
+    | none => (st, [[]])
+    | some s => let r := uniqueGo st.l i0; ({ st with l := r.1 }, [r.2.map fun x => .pair x s])
+  | .fusedUniqueDeferSignal =>
+    -- only the signal items up to the first one that passes `unique` are pulled
+    let buf := st.r ++ i0
+    let g := signalGo st.l i1
+    if g.2 then ({ st with l := g.1, r := [] }, [buf]) else ({ st with l := g.1, r := buf }, [[]])
   | .joinMultisetHalf pb pp =>
     let build := st.l ++ i0
     let probes := match pp with | .static => st.r ++ i1 | .tick => i1
